@@ -235,3 +235,8 @@ Fixpoint tail_clean (f : list mcont) : Prop :=
 
 (* helper for drivers *)
 Definition wslice (lm sl : N) (recs : list rec) : slice := mkslice lm sl (slice_ctx recs) recs.
+
+(* a file written by noodles (one slice per container) as a file of this model: every compared
+   query case goes through [query_m], so the selection of the slice by landmark is modelled for
+   single-slice containers too *)
+Definition single_file (f : list container) : list mcont := map of_container f.
